@@ -312,12 +312,12 @@ Lemma N_any ks : Sn ks sk0.
 Proof. sknf. Qed.
 Lemma N_arr ks o u : (forall d, o = Some d -> Gn ks d) -> Sn ks (arr_sk o u).
 Proof. intros H. sknf; [inversion H0; reflexivity|apply H; exact H0]. Qed.
-Lemma N_dict ks o : (forall d, o = Some d -> Gn ks d) -> Sn ks (dict_sk o).
+Lemma N_dict ks o p : (forall d, o = Some d -> Gn ks d) -> (forall d, p = Some d -> Gn ks d) -> Sn ks (dict_sk o p).
 Proof.
-  intros H. sknf.
+  intros H Hp. sknf.
   - inversion H0; reflexivity.
   - left. apply H. exact H0.
-  - inversion H0; subst. apply norm_render. apply (N_ty ks "string"). reflexivity.
+  - apply Hp. exact H0.
 Qed.
 Lemma N_tuple ks l : Forall (Gn ks) l -> Sn ks (tuple_sk l).
 Proof.
